@@ -54,7 +54,7 @@ func (c01) ID() string     { return "C01" }
 func (c01) Level() string  { return "exploration" }
 func (c01) QuickRuns() int { return 240000 }
 func (c01) Rule() string {
-	return "seeded protocol-level runs of every variant over the simulated wire with up to 4 single-field look-alike packets per probed TTL (each identifying field, identifier bumps to other/unprobed TTLs, +256 aliases, foreign flows, destination-form replies from non-target hosts, own outgoing probes), identifier bases at wrap points; a run is non-trivial when at least one look-alike was read by the endpoint; distinct = distinct (variant, TTL range, per-TTL form/perturbation) shapes"
+	return "seeded protocol-level runs of every variant over the simulated wire with up to 4 single-field look-alike packets per probed TTL (each identifying field, identifier bumps to other/unprobed TTLs, +256 aliases, foreign flows, TCP replies with a foreign acknowledgement number, destination-form replies from non-target hosts, own outgoing probes), identifier bases at wrap points; a run is non-trivial when at least one look-alike was read by the endpoint; distinct = distinct (variant, TTL range, per-TTL form/perturbation) shapes"
 }
 func (c01) Assumptions() []string {
 	return []string{"reference matcher written from the property text decides genuineness per packet against the probes called so far", "TCP SYN direct replies may be credited to the most recently sent probe (caveat of the property)"}
@@ -417,7 +417,7 @@ func (c04) ID() string     { return "C04" }
 func (c04) Level() string  { return "exploration" }
 func (c04) QuickRuns() int { return 300000 }
 func (c04) Rule() string {
-	return "C01's generator plus a dedicated family: destination-form replies (echo reply, SYN-ACK/RST, SACK ACK, unreachable) carrying the right identifiers but sent by hosts that are not the target, and time-exceeded sent by mid-path routers and by the target itself; a hop must be marked destination iff the reply the reference fold selected for it is a proof-of-arrival reply from the target; non-trivial = a destination-form packet from a non-target host or an error from the target was read; distinct = distinct shapes"
+	return "C01's generator plus a dedicated family: destination-form replies (echo reply, SYN-ACK/RST, SACK ACK, unreachable) carrying the right identifiers but sent by hosts that are not the target, and time-exceeded sent by mid-path routers and by the target itself, destination-unreachable sent by the target for the non-UDP variants (a REJECTing host firewall: not a proof of arrival there); a hop must be marked destination iff the reply the reference fold selected for it is a proof-of-arrival reply from the target, and every destination mark needs some proof-of-arrival packet read for that TTL even when don't-care packets make the exact comparison inconclusive; non-trivial = a destination-form packet from a non-target host or an error from the target was read; distinct = distinct shapes"
 }
 func (c04) Assumptions() []string {
 	return []string{"proof-of-arrival per protocol as listed in the property: echo reply (ICMP), any matched ICMP error from the target (UDP), SYN-ACK/RST from the target port (TCP SYN), selective ACK from the target port or time-exceeded from the target (SACK)"}
@@ -451,6 +451,9 @@ func (c04) Check(out *sim.Outcome, ri *RunInfo) []Violation {
 					continue
 				}
 				base := p.Origin.Form
+				if i := strings.IndexByte(base, ':'); i >= 0 && !strings.HasPrefix(base, "unreach") {
+					base = base[:i]
+				}
 				fromTarget := ip.Src == v.Spec.Target.Addr()
 				destForm := base == "echo" || base == "synack" || base == "rst" || base == "rstack" || base == "sack" || (len(base) >= 7 && base[:7] == "unreach")
 				if destForm && !fromTarget {
